@@ -29,3 +29,4 @@ def run(ctx):
     ctx.run("C11.DELETE-TOLERANT", "R-ERRDISC", mem.delete_tolerant)
     ctx.run("C11.DELETE-LOOP", "R-PROGRESS", mem.delete_folder_loop)
     ctx.run("C11.TABLE-RACE", "R-ERRDISC", mem.table_race)
+    ctx.run("C18.ALL-LIMITS", "R-FLOW", mem.all_limits)
